@@ -119,24 +119,7 @@ func runC15(c *Ctx) {
 
 	// (4) R-CLOSE
 	c.Rule("R-CLOSE", "every writer acquired in a function is closed on every path to an exit or visibly handed off", 25)
-	for _, pk := range mods {
-		rel := relPkg(pk.PkgPath)
-		inScope, why := c15Scope(rel)
-		for _, a := range findAcquisitions(p, pk) {
-			fn := "?"
-			if fd := p.EnclosingFuncDecl(a.Assign); fd != nil {
-				fn = rel + "." + declName(fd)
-			}
-			inst := fn + "/" + funcIDFull(a.Callee)
-			ok, how := closeStatus(p, a)
-			if !inScope {
-				c.Note("R-CLOSE out of scope (%s): %s at %s: %s", why, inst, p.Pos(a.Assign.Pos()), how)
-				continue
-			}
-			c.CallSites++
-			c.Ob("R-CLOSE", inst, a.Assign.Pos(), ok, true, "%s := %s: %s", a.Var.Name(), funcIDFull(a.Callee), how)
-		}
-	}
+	ruleClose(c, "R-CLOSE", mods, c15Scope)
 
 	c15Parallelize(c)
 	c15AtomicWriter(c)
@@ -774,6 +757,9 @@ func c15AtomicOption(c *Ctx) {
 		c.Fail(rule, "field", token.NoPos, "copyOptions.atomic not found")
 		return
 	}
+	if n := rulePutForwarding(c, rule); n < 2 {
+		c.Fail(rule, "forwarding-count", token.NoPos, "only %d delegating Put methods found", n)
+	}
 	writers := fieldWriters(p, pk, fld)
 	okW := len(writers) == 1 && strings.Contains(writers[0], "CopyWithAtomic")
 	c.Ob(rule, "field-writers", fld.Pos(), okW, false, "copyOptions.atomic is written by %v (want exactly CopyWithAtomic)", writers)
@@ -873,4 +859,69 @@ func c15GenFlush(c *Ctx) {
 
 func containsNode(outer, inner ast.Node) bool {
 	return outer.Pos() <= inner.Pos() && inner.End() <= outer.End()
+}
+
+// ruleClose records one obligation per acquired writer in scope.
+func ruleClose(c *Ctx, rule string, pkgs []*packages.Package, scope func(string) (bool, string)) {
+	p := c.P
+	for _, pk := range pkgs {
+		rel := relPkg(pk.PkgPath)
+		inScope, why := scope(rel)
+		for _, a := range findAcquisitions(p, pk) {
+			fn := "?"
+			if fd := p.EnclosingFuncDecl(a.Assign); fd != nil {
+				fn = rel + "." + declName(fd)
+			}
+			inst := fn + "/" + funcIDFull(a.Callee)
+			ok, how := closeStatus(p, a)
+			if !inScope {
+				c.Note("%s out of scope (%s): %s at %s: %s", rule, why, inst, p.Pos(a.Assign.Pos()), how)
+				continue
+			}
+			c.CallSites++
+			c.Ob(rule, inst, a.Assign.Pos(), ok, true, "%s := %s: %s", a.Var.Name(), funcIDFull(a.Callee), how)
+		}
+	}
+}
+
+// rulePutForwarding: every wrapper's Put forwards its options to the bucket it delegates to.
+func rulePutForwarding(c *Ctx, rule string) int {
+	p := c.P
+	wb := storageIface(p, "WriteBucket")
+	nFwd := 0
+	for _, q := range p.ModulePkgs() {
+		if strings.HasSuffix(q.PkgPath, "testing") {
+			continue
+		}
+		for _, name := range q.Types.Scope().Names() {
+			tn, ok := q.Types.Scope().Lookup(name).(*types.TypeName)
+			if !ok {
+				continue
+			}
+			nt, ok := tn.Type().(*types.Named)
+			if !ok || wb == nil || !(types.Implements(nt, wb) || types.Implements(types.NewPointer(nt), wb)) {
+				continue
+			}
+			for i := 0; i < nt.NumMethods(); i++ {
+				m := nt.Method(i)
+				if m.Name() != "Put" {
+					continue
+				}
+				msf := p.SSAFunc(m)
+				if msf == nil || len(msf.Blocks) == 0 || len(msf.Params) < 4 {
+					continue
+				}
+				opts := msf.Params[len(msf.Params)-1]
+				for _, call := range callsIn(msf) {
+					if !call.Call.IsInvoke() || call.Call.Method.Name() != "Put" || len(call.Call.Args) < 3 {
+						continue
+					}
+					nFwd++
+					okF := dependsOnValue(call.Call.Args[2], opts)
+					c.Ob(rule, funcID(m)+"/forwards-options", call.Pos(), okF, true, "the delegate's Put receives this method's own put options (PutWithAtomic survives the wrapper): %v", okF)
+				}
+			}
+		}
+	}
+	return nFwd
 }
